@@ -9,7 +9,7 @@ from vlib import build, sched
 
 HARNESS = os.path.join(VERIF, "engines/sched/pool_harness.c")
 REPO_SRCS = ["lib/util/src/alloc.c"]
-SHAPES = {0: "submit-all,dequeue-all", 1: "backlog-1", 2: "backlog-2", 3: "status-polled", 4: "submit-all,destroy",
+SHAPES = {7: "create-with-failing-pthread_create", 0: "submit-all,dequeue-all", 1: "backlog-1", 2: "backlog-2", 3: "status-polled", 4: "submit-all,destroy",
           5: "submit-all,dequeue-1,destroy", 6: "two rounds (recycling)"}
 
 
@@ -30,6 +30,10 @@ def configs(tier):
         out.append((3, 3, -1, 0, 0, "complete"))
         out.append((3, 3, 1, 0, 0, "complete"))
         out.append((3, 4, -1, 1, 0, 2))
+        # pool creation when pthread_create fails for the 2nd / 3rd worker (the workers already started must be told and joined)
+        out.append((2, 1, 1, 7, 0, "complete"))
+        out.append((3, 1, 1, 7, 0, "complete"))
+        out.append((3, 1, 2, 7, 0, "complete"))
         # four items on two workers: items k and k+2 can be done while k+1 is still in a worker when a further submit() runs (gap in the done list)
         out.append((2, 4, -1, 0, 0, 2))
         out.append((2, 4, -1, 2, 0, 2))
@@ -105,6 +109,8 @@ def main():
             core = re.sub(r"at point \d+", "", msg).split(":")[0] if kind == "deadlock" else re.sub(r"\d+", "N", msg)[:80]
             if kind == "deadlock":
                 core = "T0 blocked in " + ("dequeue" if "pc2" in msg or "pc3" in msg else "api") + (" after worker failure" if f >= 0 else "")
+                if sh == 7:
+                    core = "T0 blocked in thread_pool_create after a failing pthread_create"
             fp = "C09|%s|%s" % (kind, core)
             files = {"case.json": json.dumps({"hargs": hargs, "bound": bound, "spur": spur, "violation": v}, indent=1),
                      "schedule.txt": " ".join(str(x) for x in v["schedule_choices"]) + "\n"}
